@@ -19,7 +19,7 @@ MANIFEST = {
     "technique": "Rocq proof (permutation invariance of the model) + vm_compute correspondence under permuted registration orders",
 }
 
-PROFILES = [(Profile(p_wrap=0.3, n_procs=(0, 2), p_cycle_bias=0.8, p_primary=0.3, p_extra_instance=0.4, p_crowd=0.05), 130, 1200)]
+PROFILES = [(Profile(p_wrap=0.3, n_procs=(0, 2), p_cycle_bias=0.8, p_primary=0.3, p_extra_instance=0.4, p_crowd=0.05, p_crowd_big=0.4), 130, 1200)]
 # component sets in which several components announce ONE name (the start must be refused in every registration order)
 SHARED_PROFILE = Profile(p_wrap=0.0, n_procs=(0, 1), n_bare=(2, 4), p_sealed=0.5, p_naming=0.7, p_extra_instance=0.3,
                          p_valid=0.8, min_types=1, max_types=4,
